@@ -2,6 +2,7 @@ package main
 
 import (
 	"bytes"
+	"encoding/binary"
 
 	"verif/harness/internal/prng"
 )
@@ -12,10 +13,50 @@ import (
 var (
 	firstBytes = []byte{0x70, 0x70, 0x70, 0x70, 0x71, 0x72, 0x01, 0xff}
 	letters    = []byte{0x00, 0x70, 0x71, 0xff}
-	// dao storage prefix of contract id 5 under STStorage: 70 05 00 00 00
+	// the contract the DAO-level ops of a case work on and its store-level prefix (storage prefix byte ‖
+	// little-endian id); set per case by setContract. Default: contract 5 under STStorage, 70 05 00 00 00.
 	daoPrefix = []byte{0x70, 0x05, 0x00, 0x00, 0x00}
 	daoID     = int32(5)
+	daoSP     = byte(0x70)
+	// a neighbour contract whose items must never show up in (or be touched by) the first one's scans
+	otherID     = int32(6)
+	otherPrefix = []byte{0x70, 0x06, 0x00, 0x00, 0x00}
 )
+
+// contract ids in use: small ones, native (negative) ones, ids whose little-endian bytes contain the
+// bytes of another id or of the storage prefix, the int32 extremes.
+var contractIDs = []int32{5, 6, 0, -1, -5, 1285 /* 05 05 00 00 */, 1280 /* 00 05 00 00 */, 28677, /* 05 70 00 00 */
+	0x70707070, -2147483648, 2147483647, 0x05000000 /* 00 00 00 05 */, 0x71}
+
+func contractPrefix(sp byte, id int32) []byte {
+	b := []byte{sp, 0, 0, 0, 0}
+	binary.LittleEndian.PutUint32(b[1:], uint32(id))
+	return b
+}
+
+// setContract selects the contract, its neighbour and the storage prefix byte of a case.
+func setContract(id, other int32, sp byte) {
+	daoID, otherID, daoSP = id, other, sp
+	daoPrefix = contractPrefix(sp, id)
+	otherPrefix = contractPrefix(sp, other)
+}
+
+// pickContract draws them for a random case: half of the cases keep contract 5 next to a contract with
+// confusable id bytes, a fifth run under the temporary storage prefix 0x71.
+func pickContract(r *prng.R) {
+	id, other := int32(5), []int32{6, 1285, 1280, 0x05000000}[r.Intn(4)]
+	if r.Bool() {
+		id = contractIDs[r.Intn(len(contractIDs))]
+		for other = id; other == id; {
+			other = contractIDs[r.Intn(len(contractIDs))]
+		}
+	}
+	sp := byte(0x70)
+	if r.Chance(1, 5) {
+		sp = 0x71
+	}
+	setContract(id, other, sp)
+}
 
 type gen struct {
 	r    *prng.R
@@ -48,13 +89,37 @@ func (g *gen) daoTail() []byte {
 }
 
 func (g *gen) freshKey() []byte {
-	switch g.r.Intn(10) {
+	switch g.r.Intn(12) {
 	case 0, 1, 2, 3:
 		return append(bytes.Clone(daoPrefix), g.daoTail()...)
+	case 10:
+		// an item of the neighbour contract, often with the tail of one of ours
+		return append(bytes.Clone(otherPrefix), g.tailInUse()...)
+	case 11:
+		// the same contract under the other storage prefix byte
+		k := append(bytes.Clone(daoPrefix), g.tailInUse()...)
+		k[0] ^= 0x01
+		return k
 	default:
 		k := []byte{firstBytes[g.r.Intn(len(firstBytes))]}
 		return append(k, g.tail(4)...)
 	}
+}
+
+// tailInUse: the contract-level part of some item key of the case's contract already in use, or a new one.
+func (g *gen) tailInUse() []byte {
+	if g.r.Chance(2, 3) {
+		var cands [][]byte
+		for _, k := range g.pool {
+			if bytes.HasPrefix(k, daoPrefix) {
+				cands = append(cands, k[len(daoPrefix):])
+			}
+		}
+		if len(cands) > 0 {
+			return bytes.Clone(cands[g.r.Intn(len(cands))])
+		}
+	}
+	return g.daoTail()
 }
 
 // key returns a key for a write or a point read: mostly one used before (so that overwrites,
